@@ -107,6 +107,7 @@ type sim struct {
 	memType          int
 	syncer           bool // the log is of the cluster-syncer type (entries written by the log syncer of another cluster)
 	ablateReplay     bool
+	ablateType       bool // entries are not marked as coming from the cluster syncer
 	findings         []finding
 	firstPfadd       map[string]int
 	firstOther       map[string]int
@@ -154,11 +155,30 @@ func Run(c *core.RunCtx) {
 			}
 		}
 	}
+	// Attribution by ablation (known finding syncer-conflict-check-under-local-deletion):
+	// under the local-deletion policy the conflict pre-check of a syncer entry
+	// reads whatever the replica physically holds, including expired keys that
+	// one replica's background checker has removed and another's has not: the
+	// entry is executed here and skipped there, and keys that never expired
+	// diverge. When the same tape without the syncer entry type has no unknown
+	// difference, the differences are the consequence of that.
+	if s.syncer && s.policy == common.LocalDeletion && s.unknown() {
+		c3 := core.NewRunCtx(c.T, c.Prop, c.Tier, core.ReplayTape(c.Tape.Values()))
+		s3 := runOnce(c3, false, true)
+		c.Count("ablation_reruns", 1)
+		if !s3.unknown() {
+			for i := range s.findings {
+				if s.findings[i].key == "" {
+					s.findings[i].key = keySyncerLD
+				}
+			}
+		}
+	}
 	s.emit()
 }
 
-func runOnce(c *core.RunCtx, ablateReplay bool) *sim {
-	s := &sim{c: c, t: c.Tape, hllKeys: map[string]bool{}, ablateReplay: ablateReplay}
+func runOnce(c *core.RunCtx, ablateReplay bool, ablateType ...bool) *sim {
+	s := &sim{c: c, t: c.Tape, hllKeys: map[string]bool{}, ablateReplay: ablateReplay, ablateType: len(ablateType) > 0 && ablateType[0]}
 	func() {
 		defer func() {
 			if e := recover(); e != nil {
@@ -458,7 +478,7 @@ func (s *sim) buildList(in *inst, e entry) node.BatchInternalRaftRequest {
 		rl.Timestamp = s.log[e.from].ts
 	}
 	rl.ReqId = e.reqID
-	if s.syncer {
+	if s.syncer && !s.ablateType {
 		rl.Type = node.FromClusterSyncer
 		rl.OrigTerm = 1
 		rl.OrigIndex = uint64(e.from + 1)
@@ -618,6 +638,11 @@ func (s *sim) applyCall(in *inst, ents []entry, replay bool) {
 		for _, tb := range tables[:s.ntable] {
 			n, _ := in.st.GetTableKeyCount([]byte(tb))
 			fmt.Fprintf(core.Stdout, "  count %d %s=%d after [%d,%d)\n", in.idx, tb, n, ents[0].from, ents[len(ents)-1].to)
+		}
+		if w := os.Getenv("SMSIM_WATCH"); w != "" {
+			v, err := in.st.KVGet([]byte(w))
+			ex, _ := in.st.KVExists([]byte(w))
+			fmt.Fprintf(core.Stdout, "  watch %d %s = %q err=%v exists=%d\n", in.idx, w, v, err, ex)
 		}
 	}
 	// collect replies
